@@ -856,7 +856,8 @@ func parseTypeSystemDefinition(parser *Parser) (ast.Node, error) {
 	)
 	// Many definitions begin with a description and require a lookahead.
 	keywordToken := parser.Token
-	if peekDescription(parser) {
+	described := peekDescription(parser)
+	if described {
 		if keywordToken, err = lookahead(parser); err != nil {
 			return nil, err
 		}
@@ -864,6 +865,13 @@ func parseTypeSystemDefinition(parser *Parser) (ast.Node, error) {
 
 	if keywordToken.Kind != lexer.NAME {
 		return nil, unexpected(parser, keywordToken)
+	}
+	if described {
+		switch keywordToken.Value {
+		case lexer.FRAGMENT, lexer.QUERY, lexer.MUTATION, lexer.SUBSCRIPTION, lexer.SCHEMA, lexer.EXTEND:
+			// these definitions take no description: the keyword is the unexpected token
+			return nil, unexpected(parser, keywordToken)
+		}
 	}
 	var ok bool
 	if item, ok = tokenDefinitionFn[keywordToken.Value]; !ok {
